@@ -194,6 +194,11 @@ func cmdRead(o *Out, line string, f []string) {
 					break
 				}
 			}
+		case strings.HasPrefix(ex, "exact="):
+			if k := int(atoi64(ex[6:])); len(ob.tables) != k {
+				o.violation(line, "a prefix ending at a document boundary does not decode to exactly the chunks it contains",
+					map[string]int{"delivered": len(ob.tables), "contained": k})
+			}
 		case ex == "wellformed":
 			o.count("expect-wellformed")
 			if ob.err != nil {
